@@ -155,6 +155,29 @@ impl World {
         self.tally.retain(|_, v| *v != 0);
         r.map(|_| [st.ipv4.torrents.load(Relaxed), st.ipv4.peers.load(Relaxed), st.ipv6.torrents.load(Relaxed), st.ipv6.peers.load(Relaxed)])
     }
+    /// what a scrape says about every torrent the history touched, against the model (C01: after a cleaning pass the
+    /// expired peers are gone, whatever happened to the export)
+    fn check_scrapes(&self, what: &str) -> Option<Violation> {
+        let mut keys: BTreeSet<(bool, u16)> = self.model.keys().copied().collect();
+        for g in 0..self.ghosts {
+            keys.insert((g % 2 == 1, g as u16 % self.nt.max(1)));
+        }
+        for (v6, t) in keys {
+            let ip = if v6 { IpAddr::V6(Ipv6Addr::new(0x2001, 0xdb8, 0, 0, 0, 0, 0, 999)) } else { IpAddr::V4(Ipv4Addr::new(10, 0, 9, 9)) };
+            let src = CanonicalSocketAddr::new(SocketAddr::new(ip, 5000));
+            let req = ScrapeRequest { connection_id: ConnectionId::new(0), transaction_id: TransactionId::new(1), info_hashes: vec![InfoHash(ih(t))] };
+            let r = match catch(|| self.maps.scrape(req, src)) {
+                Ok(r) => r,
+                Err(m) => return Some(Violation::new("C01", "scrape-panic", "scrape-panic", format!("{}: scrape panicked: {}", what, m))),
+            };
+            let got = r.torrent_stats.first().map(|s| (s.seeders.0.get() as usize, s.leechers.0.get() as usize)).unwrap_or((0, 0));
+            let want = self.model.get(&(v6, t)).map(|p| (p.values().filter(|x| **x).count(), p.values().filter(|x| !**x).count())).unwrap_or((0, 0));
+            if got != want {
+                return Some(Violation::new("C01", "counts-after-cleaning-pass", "expired-peers-still-counted", format!("{}: after the cleaning pass torrent {} ({}) scrapes seeders/leechers {}/{} but {}/{} unexpired peers are stored", what, t, if v6 { "IPv6" } else { "IPv4" }, got.0, got.1, want.0, want.1)));
+            }
+        }
+        None
+    }
     /// totals and per-client tallies against the model, after a pass that was not killed
     fn check_totals(&self, got: [usize; 4], what: &str) -> Option<Violation> {
         let mut want = [0usize; 4];
@@ -237,7 +260,7 @@ impl Harness for ExportCrash {
                 return Outcome { violations, fingerprint: fp, signature: None };
             }
             Ok(got) => {
-                if let Some(v) = w.check_totals(got, "undisturbed pass") {
+                if let Some(v) = w.check_totals(got, "undisturbed pass").or_else(|| w.check_scrapes("undisturbed pass")) {
                     violations.push(v);
                     return Outcome { violations, fingerprint: fp, signature: None };
                 }
@@ -264,7 +287,7 @@ impl Harness for ExportCrash {
                 return Outcome { violations, fingerprint: fp, signature: None };
             }
             Ok(got) => {
-                if let Some(v) = w.check_totals(got, "second undisturbed pass") {
+                if let Some(v) = w.check_totals(got, "second undisturbed pass").or_else(|| w.check_scrapes("second undisturbed pass")) {
                     violations.push(v);
                     return Outcome { violations, fingerprint: fp, signature: None };
                 }
@@ -379,8 +402,10 @@ impl Harness for ExportCrash {
             // a failed export is not a failed pass: expired peers are gone and the totals are right
             if let Ok(got) = &r {
                 stats.evaluations += 1;
-                if let Some(v) = w.check_totals(*got, &what) {
-                    violations.push(v);
+                let (a, b) = (w.check_totals(*got, &what), w.check_scrapes(&what));
+                if a.is_some() || b.is_some() {
+                    violations.extend(a);
+                    violations.extend(b);
                     break;
                 }
                 if w.ghosts > 0 {
